@@ -149,7 +149,7 @@ PROPS['C16'] = {
                    'start and end of the line containing the position',
     'bounds': '<= 4 newlines, text length < 4096, unwind 6',
     'outside': 'the message texts, the `*pos + 5` of the stepping prompt and everything else inside CMDDriver::run; which source position each emitted instruction is mapped to (SourceMapper) is checked natively by the grammar engine, not here',
-    'backends': [(r'.*', ['sat', 'z3'])],
+    'backends': [(r'mapper', [('z3', 'cvc5'), 'sat']), (r'.*', ['sat', 'z3'])],
     'assumptions': ['as C15'],
     'level_text': 'bounded model checking of the position -> (line, start, end) function against the definition of "the line containing p"',
     'level_note': 'partial claim; last line without trailing newline and positions on a newline are known findings',
